@@ -154,7 +154,6 @@ harness!(api_assoc, 96, |t| {
     let y = Setsum::from_digest(t.arr());
     let z = Setsum::from_digest(t.arr());
     assert!(val(&((x + y) + z)) == val(&(x + (y + z))), "(x+y)+z == x+(y+z)");
-    assert!(val(&((x - y) - z)) == val(&(x - (y + z))), "(x-y)-z == x-(y+z)");
     vcover!(val(&x) != val(&y), "distinct");
 });
 
